@@ -32,7 +32,16 @@ func (sc *Scenario) Materialize(root string, resultDir string) ([]string, error)
 	if err := w("config.yml", sc.configYAML()); err != nil {
 		return nil, err
 	}
-	if err := w("poly_"+p+".txt", sc.polyFile()); err != nil {
+	if sc.FileExt != "" {
+		// fileExtension=<ext> on the batch line: rotation, polygon and automatic-management files are read with that extension
+		// ("several configurations in one project"); the .txt files next to them are decoys naming a soil that does not exist
+		if err := w("poly_"+p+"."+sc.FileExt, sc.polyFile()); err != nil {
+			return nil, err
+		}
+		decoy := *sc
+		decoy.PolySID = "ZZ9"
+		w("poly_"+p+".txt", decoy.polyFile())
+	} else if err := w("poly_"+p+".txt", sc.polyFile()); err != nil {
 		return nil, err
 	}
 	if sc.Soil.CSV {
@@ -44,7 +53,9 @@ func (sc *Scenario) Materialize(root string, resultDir string) ([]string, error)
 			return nil, err
 		}
 	}
-	if sc.RotCSV {
+	if sc.FileExt != "" {
+		w("crop_"+p+"."+sc.FileExt, sc.rotationFile(sc.RotCSV)) // the configured format decides how it is read, whatever the extension
+	} else if sc.RotCSV {
 		w("crop_"+p+".csv", sc.rotationFile(true))
 	} else {
 		w("crop_"+p+".txt", sc.rotationFile(false))
@@ -61,7 +72,11 @@ func (sc *Scenario) Materialize(root string, resultDir string) ([]string, error)
 		w("gw_"+p+".csv", sc.gwFile())
 	}
 	if len(sc.Automan) > 0 || sc.AutoSow || sc.AutoFert || sc.AutoIrr || sc.AutoHarvest {
-		w("automan.txt", sc.automanFile())
+		if sc.FileExt != "" {
+			w("automan."+sc.FileExt, sc.automanFile())
+		} else {
+			w("automan.txt", sc.automanFile())
+		}
 	}
 	w("dailyout_conf.yml", outConfigYAML(sc.DailyCols, sc.OutStyle))
 	w("yearlyout_conf.yml", outConfigYAML(sc.YearlyCols, sc.OutStyle))
@@ -160,6 +175,12 @@ func (sc *Scenario) Materialize(root string, resultDir string) ([]string, error)
 			}
 		}
 		args = append(args, "parameter="+pdir)
+	}
+	if sc.FileExt != "" {
+		args = append(args, "fileExtension="+sc.FileExt)
+	}
+	if sc.GWId != "" {
+		args = append(args, "gwId="+sc.GWId)
 	}
 	args = append(args, sc.ExtraArgs...)
 	return args, nil
@@ -527,8 +548,15 @@ func (sc *Scenario) gwFile() string {
 	if sc.OtherField {
 		fmt.Fprintf(&b, "%s,%s,%s\n", "998", FmtDate(sc.Start, sc.DateFormat), "7.5")
 	}
+	id := sc.Soil.ID
+	if sc.GWId != "" {
+		id = sc.GWId // gwId=<id> on the batch line selects the series; the rows under the soil's own id are decoys
+	}
 	for i, p := range sc.GWSeries {
-		fmt.Fprintf(&b, "%s,%s,%s\n", sc.Soil.ID, FmtDate(p.D, sc.DateFormat), fmtG(p.Level))
+		fmt.Fprintf(&b, "%s,%s,%s\n", id, FmtDate(p.D, sc.DateFormat), fmtG(p.Level))
+		if sc.GWId != "" && i%3 != 1 {
+			fmt.Fprintf(&b, "%s,%s,%s\n", sc.Soil.ID, FmtDate(p.D.AddDays(i%2), sc.DateFormat), fmtG(p.Level+2.2))
+		}
 		if sc.OtherField && i%2 == 0 {
 			// a file sorted by date holds the rows of several soils interleaved
 			fmt.Fprintf(&b, "%s,%s,%s\n", "998", FmtDate(p.D, sc.DateFormat), fmtG(p.Level+3.3))
